@@ -73,3 +73,27 @@ V("c05-new-leak", "break", ["C05"], (CO, "from math import pow, prod", "from mat
 V("c05-add-ignore", "break", ["C05"], (FN, "    output_scale, input_grad_scale, other_grad_scale = apply_constraint(\n        constraint, output_scale", "    output_scale, input_grad_scale, other_grad_scale = apply_constraint(\n        None, output_scale"))
 V("c05-keep-amean", "keep", ["C05"], (CO, "    return sum(scales) / len(scales)", "    n = len(scales)\n    return sum(s / n for s in scales)"))
 V("c05-keep-tuple", "keep", ["C05"], (CO, "    return tuple(scale for _ in scales)", "    return (scale,) * len(scales)"))
+
+# ---------------------------------------------------------------- C10
+OP = "unit_scaling/optim.py"
+V("c10-fanin-2d-shape0", "break", ["C10"], (OP, "    if len(param.shape) == 2:\n        return param.shape[1]", "    if len(param.shape) == 2:\n        return param.shape[0]"), expect="lr_scale_func_adam[weight,ndim=2]")
+V("c10-conv-nokernel", "break", ["C10"], (OP, "        return param.shape[1] * param.shape[2]", "        return param.shape[1]"))
+V("c10-exponent-sign", "break", ["C10"], (OP, "        return scale * _get_fan_in(param) ** -0.5", "        return scale * _get_fan_in(param) ** 0.5"))
+V("c10-depth-exp", "break", ["C10"], (OP, "    return param.mup_scaling_depth**-0.5", "    return param.mup_scaling_depth**-1"))
+V("c10-sgd-ignore-rc", "break", ["C10"], (OP, "            lr_scale_func_sgd(readout_constraint),", "            lr_scale_func_sgd(None),"), expect="SGD.__init__::lr_scale_func")
+V("c10-adamw-sgd", "break", ["C10"], (OP, "class AdamW(torch.optim.AdamW):\n    def __init__(\n        self,\n        params: ParamsT,\n        lr: Union[float, Tensor] = 1e-3,\n        *args: Any,\n        weight_decay: float = 0,\n        independent_weight_decay: bool = True,\n        allow_non_unit_scaling_params: bool = False,\n        **kwargs: Any,\n    ) -> None:\n        params = scaled_parameters(\n            params,\n            lr_scale_func_adam,", "class AdamW(torch.optim.AdamW):\n    def __init__(\n        self,\n        params: ParamsT,\n        lr: Union[float, Tensor] = 1e-3,\n        *args: Any,\n        weight_decay: float = 0,\n        independent_weight_decay: bool = True,\n        allow_non_unit_scaling_params: bool = False,\n        **kwargs: Any,\n    ) -> None:\n        params = scaled_parameters(\n            params,\n            lr_scale_func_sgd(\"to_output_scale\"),"))
+V("c10-sgd-norm", "break", ["C10"], (OP, "            if param.mup_type in (\"bias\", \"norm\"):\n                return scale * param.shape[0]", "            if param.mup_type in (\"bias\",):\n                return scale * param.shape[0]\n            if param.mup_type == \"norm\":\n                return scale"))
+V("c10-output-scaled", "break", ["C10"], (OP, "    if param.mup_type == \"output\":\n        return scale\n    assert False, f\"Unexpected mup_type {param.mup_type}\"\n\n\ndef scaled_parameters", "    if param.mup_type == \"output\":\n        return scale * _get_fan_in(param) ** -0.5\n    assert False, f\"Unexpected mup_type {param.mup_type}\"\n\n\ndef scaled_parameters"))
+V("c10-4d-silent", "break", ["C10"], (OP, "    raise ValueError(\n        f\"Cannot get fan_in of `ndim >= 4` param, shape={tuple(param.shape)}\"\n    )", "    return param.shape[1] * param.shape[2] * param.shape[3]"))
+V("c10-group-lr-ignored", "break", ["C10"], (OP, "            param_lr = group[\"lr\"]\n", "            param_lr = lr if lr is not None else group[\"lr\"]\n"))
+V("c10-adam-drops-allow", "break", ["C10"], (OP, "class Adam(torch.optim.Adam):\n    def __init__(\n        self,\n        params: ParamsT,\n        lr: Union[float, Tensor] = 1e-3,\n        *args: Any,\n        weight_decay: float = 0,\n        independent_weight_decay: bool = True,\n        allow_non_unit_scaling_params: bool = False,\n        **kwargs: Any,\n    ) -> None:\n        params = scaled_parameters(\n            params,\n            lr_scale_func_adam,\n            lr=lr,\n            weight_decay=weight_decay,\n            independent_weight_decay=independent_weight_decay,\n            allow_non_unit_scaling_params=allow_non_unit_scaling_params,", "class Adam(torch.optim.Adam):\n    def __init__(\n        self,\n        params: ParamsT,\n        lr: Union[float, Tensor] = 1e-3,\n        *args: Any,\n        weight_decay: float = 0,\n        independent_weight_decay: bool = True,\n        allow_non_unit_scaling_params: bool = False,\n        **kwargs: Any,\n    ) -> None:\n        params = scaled_parameters(\n            params,\n            lr_scale_func_adam,\n            lr=lr,\n            weight_decay=weight_decay,\n            independent_weight_decay=independent_weight_decay,"))
+V("c10-keep-sqrt", "keep", ["C10", "C12"], (OP, "        return scale * _get_fan_in(param) ** -0.5", "        return scale / _get_fan_in(param) ** 0.5"))
+V("c10-keep-ndim", "keep", ["C10", "C12"], (OP, "    if len(param.shape) == 2:\n        return param.shape[1]", "    if len(param.shape) == 2:\n        return param.shape[-1]"))
+
+# ---------------------------------------------------------------- C12
+V("c12-readout-power", "break", ["C12"], (FN, "        input, weight, bias, constraint=constraint, scale_power=(1.0, 0.5, 0.5)", "        input, weight, bias, constraint=constraint, scale_power=(0.5, 0.5, 0.5)"), expect="LinearReadout")
+V("c12-weight-lr-exp", "break", ["C12"], (OP, "        return scale * _get_fan_in(param) ** -0.5", "        return scale * _get_fan_in(param) ** -1.0"))
+V("c12-readout-tag", "break", ["C12"], (MD, "        weight_mup_type: MupType = \"output\",", "        weight_mup_type: MupType = \"weight\","), expect="LinearReadout")
+V("c12-conv-tag", "break", ["C12"], (MD, "        constraint: Optional[str] = \"to_output_scale\",\n        weight_mup_type: MupType = \"weight\",\n    ) -> None:\n        super().__init__(\n            in_channels,", "        constraint: Optional[str] = \"to_output_scale\",\n        weight_mup_type: MupType = \"output\",\n    ) -> None:\n        super().__init__(\n            in_channels,"))
+V("c12-depth", "break", ["C12"], (OP, "    return param.mup_scaling_depth**-0.5", "    return param.mup_scaling_depth**-0.25"))
+V("c12-readout-default-constraint", "break", ["C12"], (MD, "        constraint: Optional[str] = None,\n        weight_mup_type: MupType = \"output\",", "        constraint: Optional[str] = \"gmean\",\n        weight_mup_type: MupType = \"output\","))
